@@ -36,7 +36,7 @@ def deep_close(a, b, tol=1e-9):
     return a == b
 
 
-def run_shard(prop, sub, tier, k, nshards, seed, tmp, hashseed):
+def run_shard(prop, sub, tier, k, nshards, seed, tmp, hashseed, fuzz_seconds=0):
     out = os.path.join(tmp, f"{sub}.{k}.json")
     env = dict(os.environ)
     env["PYTHONHASHSEED"] = str(hashseed)
@@ -46,11 +46,20 @@ def run_shard(prop, sub, tier, k, nshards, seed, tmp, hashseed):
     os.makedirs(env["VF_TMP"], exist_ok=True)
     for v in ("OMP_NUM_THREADS", "OPENBLAS_NUM_THREADS", "MKL_NUM_THREADS"):
         env[v] = "1"
-    cmd = [sys.executable, "-m", "vf.shard", prop, sub, tier, str(k), str(nshards), str(seed), out]
+    cmd = [sys.executable, "-m", "vf.fuzzshard" if fuzz_seconds else "vf.shard", prop, sub, tier, str(k), str(nshards), str(seed), out]
+    if fuzz_seconds:
+        env["VF_FUZZ_SECONDS"] = str(fuzz_seconds)
     proc = subprocess.Popen(cmd, env=env, cwd=HERE, stdout=subprocess.PIPE, stderr=subprocess.PIPE, text=True)
     try:
-        so, se = proc.communicate(timeout=int(os.environ.get("VF_SHARD_TIMEOUT", SHARD_TIMEOUT[tier])))
+        so, se = proc.communicate(timeout=(fuzz_seconds + 180) if fuzz_seconds else int(os.environ.get("VF_SHARD_TIMEOUT", SHARD_TIMEOUT[tier])))
     except subprocess.TimeoutExpired:
+        if fuzz_seconds and os.path.exists(out):  # a campaign that did not stop by itself: keep what it dumped last
+            proc.kill()
+            proc.communicate()
+            with open(out) as f:
+                r = core.loads(f.read())
+            r["hashseed"] = str(hashseed)
+            return r
         where = ""
         try:
             import signal
@@ -129,6 +138,12 @@ def main(argv):
             for k in range(ns):
                 hs = HASHSEEDS[k % len(HASHSEEDS)] if k % len(HASHSEEDS) != 2 else seed % (2**32)
                 jobs.append((prop, s.name, tier, k, ns, seed, tmp, hs))
+            nf, secs = s.fuzz.get(tier, (0, 0))
+            if os.environ.get("VF_FUZZ_SECONDS"):
+                secs = int(os.environ["VF_FUZZ_SECONDS"]) if nf else 0
+            for j in range(nf if secs else 0):
+                k = ns + j
+                jobs.append((prop, s.name, tier, k, ns + nf, seed, tmp, HASHSEEDS[k % len(HASHSEEDS)], secs))
         with ThreadPoolExecutor(MAXPAR) as ex:
             results = list(ex.map(lambda j: run_shard(*j), jobs))
     finally:
@@ -159,6 +174,13 @@ def main(argv):
         ps["cases"] += r["cases"]
         ps["evals"] += r["evals"]
         ps["shards"] += 1
+        if r.get("fuzz"):
+            cg = ps.setdefault("coverage_guided", {"shards": 0, "seconds_each": r["fuzz"].get("seconds"), "executions": 0, "decoded_cases": 0})
+            cg["shards"] += 1
+            cg["executions"] += r["fuzz"].get("executions", 0)
+            cg["decoded_cases"] += r["fuzz"].get("decoded_cases", 0)
+            if r["fuzz"].get("unavailable"):
+                cg["unavailable"] = r["fuzz"]["unavailable"]
         ps["wall_s"] = round(max(ps["wall_s"], r["wall_s"]), 1)
         if r.get("enumerated_range"):
             ps["enumerated_total"] = r["enumerated_range"][2]
